@@ -78,6 +78,8 @@ func cliArgs(s Step, chartDir string) []string {
 		a = add(a, "force", "--force")
 		a = append(a, "--history-max", strconv.Itoa(flagI(f, "maxHistory")))
 		return add(a, "dryRun", "--dry-run")
+	case "test":
+		return []string{"test", RelName, "--namespace", RelNS}
 	case "uninstall":
 		a := append([]string{"uninstall", RelName}, common...)
 		a = add(a, "keepHistory", "--keep-history")
